@@ -3,3 +3,4 @@ pub mod deque;
 pub mod iovec;
 pub mod readn;
 pub mod stream;
+pub mod tlv;
